@@ -347,6 +347,7 @@ func init() {
 		relC04(x, 60000*x.scale)
 	}
 	props["C06"] = func(x *Ctx) {
+		x.nilArgs()
 		x.hugeHaystacks()
 		x.aliasedViews(allSS)
 		x.kelvinTails(allSS)
@@ -364,6 +365,7 @@ func init() {
 		x.guardedAPI()
 	}
 	props["C07"] = func(x *Ctx) {
+		x.nilArgs()
 		x.hugeHaystacks()
 		x.aliasedViews(allSS)
 		x.nonLetterHead(allSS)
@@ -1337,6 +1339,59 @@ func (x *Ctx) hugeHaystacks() {
 	ev("Count", many, []byte("\u212a"), 0)
 	ev("Count", bytes.Repeat([]byte("-"), 70000), []byte("-"), 0)
 	x.note("haystacks beyond 2^16 / 2^20 bytes and counts beyond 2^16: %d cases", n)
+}
+
+// nilArgs: the []byte functions with nil arguments must behave exactly as with empty non-nil ones (for every function,
+// every combination of nil / empty / non-empty arguments; rune and byte searches in a nil haystack too)
+func (x *Ctx) nilArgs() {
+	n, bad := 0, 0
+	call := func(f func() string) (res string) {
+		defer func() {
+			if e := recover(); e != nil {
+				res = "PANIC"
+			}
+		}()
+		return f()
+	}
+	others := [][]byte{[]byte("k"), []byte("\u212a"), []byte("ab"), []byte("\xff"), {}}
+	for i := range fnDefs {
+		d := &fnDefs[i]
+		type pr struct {
+			nilS, nilT bool
+			o          []byte
+		}
+		var prs []pr
+		for _, o := range others {
+			prs = append(prs, pr{true, false, o}, pr{false, true, o}, pr{true, true, o})
+		}
+		for _, p := range prs {
+			mk := func(isNil bool, empty bool) []byte {
+				if isNil {
+					if empty {
+						return []byte{}
+					}
+					return nil
+				}
+				return append([]byte{}, p.o...)
+			}
+			for _, r := range []int64{'k', 0x212A, 0xFFFD, -1} {
+				sN, tN := mk(p.nilS, false), mk(p.nilT, false)
+				sE, tE := mk(p.nilS, true), mk(p.nilT, true)
+				got := call(func() string { return d.byt(sN, tN, r) })
+				want := call(func() string { return d.byt(sE, tE, r) })
+				n++
+				if got != want && bad < 5 {
+					bad++
+					x.relFail("relation", d.name, &Case{Fn: d.name, S: sE, T: tE, R: r},
+						fmt.Sprintf("bytcase.%s returns %s with empty non-nil arguments but %s when the empty argument(s) are nil (s nil: %v, second argument nil: %v)", d.name, want, got, p.nilS, p.nilT))
+				}
+				if d.kind == kSS {
+					break
+				}
+			}
+		}
+	}
+	x.note("nil arguments versus empty non-nil ones: %d calls", n)
 }
 
 // fffdBait: a literal U+FFFD in one argument opposite a multi-byte code point in the other, behind (or in
